@@ -458,27 +458,27 @@ def run_c06(chk, F, fs, tier):
 
 
 # ---- C18: VByte structure on every value ----------------------------------------------------------------------------------------
-def run_c18(chk, F, fs, tier):
+def run_c18(chk, F, fs, tier, prefix=""):
     lres = evaluate(F, fs, [j for j in len_jobs(tier) if j[0].startswith("vbyte")])
     wres = evaluate(F, fs, [j for j in writer_jobs(tier) if j[0].startswith("w.vbyte")])
-    chk.rule("V4.steps", floor=2, doc="byte_len_vbyte / bit_len_vbyte evaluated on all of u64: exactly ten cells, stepping at 2^7, 2^7+2^14, ... (the documented step points), lengths 1..10 bytes")
-    chk.rule("V4.count", floor=6, doc="each of the six VByte writers emits, for every 64-bit value, exactly byte_len_vbyte(value) bytes and returns that count (bit-stream writers: 8x)")
-    chk.rule("V4.continuation", floor=6, doc="for every value, every emitted byte but the last has its top bit set and the last byte has it clear (abstract byte ranges [0x80,0xFF] / [0,0x7F]): the reader stops exactly at the last byte written")
+    chk.rule(prefix + "V4.steps", floor=2, doc="byte_len_vbyte / bit_len_vbyte evaluated on all of u64: exactly ten cells, stepping at 2^7, 2^7+2^14, ... (the documented step points), lengths 1..10 bytes")
+    chk.rule(prefix + "V4.count", floor=6, doc="each of the six VByte writers emits, for every 64-bit value, exactly byte_len_vbyte(value) bytes and returns that count (bit-stream writers: 8x)")
+    chk.rule(prefix + "V4.continuation", floor=6, doc="for every value, every emitted byte but the last has its top bit set and the last byte has it clear (abstract byte ranges [0x80,0xFF] / [0,0x7F]): the reader stops exactly at the last byte written")
     steps = [0]
     for k in range(1, 10):
         steps.append(steps[-1] + (1 << (7 * k)))
     for lk, unit in (("vbyte.bytes", 1), ("vbyte.bits", 8)):
         r = lres[lk]
         if "unsupported" in r:
-            chk.bad("V4.steps", lk, "cannot evaluate %s: %s" % (lk, r["unsupported"]))
+            chk.bad(prefix + "V4.steps", lk, "cannot evaluate %s: %s" % (lk, r["unsupported"]))
             continue
         got = [(c["y0"], c["ret"][2] if c["ret"] and is_const(c["ret"]) else None) for c in r["cells"]]
         want = [(s, (i + 1) * unit) for i, s in enumerate(steps)]
-        chk.expect("V4.steps", lk, covered(r["cells"]) and got == want, "%s steps at %s, documented step points are %s" % (lk, got[:12], want),
+        chk.expect(prefix + "V4.steps", lk, covered(r["cells"]) and got == want, "%s steps at %s, documented step points are %s" % (lk, got[:12], want),
                    sample={"fn": lk, "steps": [hex(s) for s, _ in got]})
     for key, r in sorted(wres.items()):
         if "unsupported" in r:
-            chk.bad("V4.count", key, "cannot evaluate %s: %s" % (key, r["unsupported"]))
+            chk.bad(prefix + "V4.count", key, "cannot evaluate %s: %s" % (key, r["unsupported"]))
             continue
         io = key.startswith("w.vbyte_io")
         prob = cprob = None
@@ -499,8 +499,8 @@ def run_c18(chk, F, fs, tier):
                     break
             if cprob:
                 break
-        chk.expect("V4.count", key, covered(r["cells"]) and prob is None, "VByte writer %s: %s" % (key, prob), sample={"writer": key, "cells": len(r["cells"])})
-        chk.expect("V4.continuation", key, prob is None and cprob is None, "VByte writer %s: %s" % (key, cprob or prob), sample={"writer": key})
+        chk.expect(prefix + "V4.count", key, covered(r["cells"]) and prob is None, "VByte writer %s: %s" % (key, prob), sample={"writer": key, "cells": len(r["cells"])})
+        chk.expect(prefix + "V4.continuation", key, prob is None and cprob is None, "VByte writer %s: %s" % (key, cprob or prob), sample={"writer": key})
 
 
 # ---- C04.D3 / C03.K2: exact fields of the non-table writers, and replay of the reader on them -------------------------------
@@ -577,9 +577,12 @@ def ev_matches(ev, f, y0, y1):
                 return False
         return True
     if val[0] == "aff":
-        if v.aff is None:
+        form = v.aff
+        if form is None and v.tag is not None and v.tag[0] == "low" and v.tag[3] >= w:
+            form = (v.tag[1], v.tag[2])          # (a*n+b) mod 2^k with k >= w is a*n+b modulo 2^w
+        if form is None:
             return False
-        return (v.aff[0] - val[1]) % m == 0 and (v.aff[1] - val[2]) % m == 0
+        return (form[0] - val[1]) % m == 0 and (form[1] - val[2]) % m == 0
     # shr / low of an affine source
     if val[1] == 0:
         c = v.const()
@@ -592,7 +595,7 @@ def ev_matches(ev, f, y0, y1):
 
 def fmt_ev(ev):
     if ev[0] == "unary":
-        return "unary(%r)" % (ev[1],)
+        return "unary(%r%s)" % (ev[1], (" tag%s" % (ev[1].tag,)) if getattr(ev[1], "tag", None) else "")
     return "%s(%r%s, %r)" % (ev[0], ev[1], (" tag%s" % (ev[1].tag,)) if getattr(ev[1], "tag", None) else "", ev[2] if len(ev) > 2 else "")
 
 
@@ -732,8 +735,9 @@ def run_c04_fields(chk, F, fs, tier):
     probs = refspec.self_check()
     chk.expect("D3.spec", "self_check", not probs, "refspec.py disagrees with refcodes.py / documented examples: %s" % probs[:5])
     chk.rule("D3.fields", floor=100, doc="for every value of the domain (partition of [0, 2^64-1] into cells with one control path) the non-table writer emits exactly the documented fields: same primitives, same widths, and each field value equal modulo 2^width to the documented one as an affine function of n (gamma, delta, zeta_k, omega BE/LE, pi_k, Rice_k, minimal binary u)")
+    sfx = "" if fs == "default" else "@" + fs
     for cfg, r in evaluate_fields(F, fs, tier):
-        key = cfg[0]
+        key = cfg[0] + sfx
         if "unsupported" in r:
             chk.bad("D3.fields", key, "writer %s cannot be evaluated: %s" % (key, r["unsupported"]))
             continue
@@ -744,8 +748,9 @@ def run_c04_fields(chk, F, fs, tier):
 
 def run_c03_roundtrip(chk, F, fs, tier):
     chk.rule("K2.replay", floor=90, doc="round trip at the level of stream primitives, for every value: the reader of each code, interpreted on each cell with read_unary/read_bits answered by the primitives the writer emitted there (same order, same widths, low w bits), consumes all of them and returns exactly n (affine form 1*n+0): gamma, delta, zeta_k, pi_k, Rice_k, minimal binary u; both endiannesses; non-table paths")
+    sfx = "" if fs == "default" else "@" + fs
     for cfg, r in evaluate_fields(F, fs, tier):
-        key = cfg[0]
+        key = cfg[0] + sfx
         if cfg[4] is None:
             continue
         if "unsupported" in r:
